@@ -719,4 +719,156 @@ theorem rnd_abs_le_of_rep {q v : Rat} (hv : Rep v) (h : q.abs ≤ v) : (rnd q).a
   rw [abs_le_iff] at h ⊢
   exact ⟨le_rnd_of_rep_le hv.neg h.1, rnd_le_of_le_rep hv h.2⟩
 
+/-! ### 5c. `roundNE`-level statements (items 4, 5) -/
+
+/-- the largest finite double `(2^53 − 1) · 2^971` -/
+def maxFin : Rat := ((2 ^ 53 - 1 : Nat) : Rat) * pow2 971
+
+theorem rep_maxFin : Rep maxFin := rep_natCast_mul (by decide) (by decide)
+
+theorem maxFin_lt : maxFin < pow2 1024 := by
+  unfold maxFin
+  rw [show (1024 : Int) = 53 + 971 by decide, pow2_add, pow2_53]
+  exact Rat.mul_lt_mul_of_pos_right (Rat.natCast_lt_natCast.2 (by decide)) (pow2_pos _)
+
+theorem pow2_le_maxFin {K : Int} (h : K ≤ 1023) : pow2 K ≤ maxFin := by
+  refine Rat.le_trans (pow2_mono h) ?_
+  unfold maxFin
+  rw [show (1023 : Int) = 52 + 971 by decide, pow2_add, show pow2 52 = ((2 ^ 52 : Nat) : Rat) from pow2_natCast 52]
+  exact Rat.mul_le_mul_of_nonneg_right (Rat.natCast_le_natCast.2 (by decide)) (Rat.le_of_lt (pow2_pos _))
+
+/-- no overflow up to and including the largest finite double -/
+theorem rnd_abs_le_maxFin {q : Rat} (h : q.abs ≤ maxFin) : (rnd q).abs ≤ maxFin :=
+  rnd_abs_le_of_rep rep_maxFin h
+
+theorem rnd_abs_lt_of_le_maxFin {q : Rat} (h : q.abs ≤ maxFin) : (rnd q).abs < pow2 1024 := by
+  have := rnd_abs_le_maxFin h; have := maxFin_lt; grind
+
+theorem toRat_roundNE_of_le {q : Rat} (h : q.abs ≤ maxFin) : toRat (roundNE q) = rnd q :=
+  toRat_roundNE (rnd_abs_lt_of_le_maxFin h)
+
+theorem isFinite_roundNE_of_le {q : Rat} (h : q.abs ≤ maxFin) : isFinite (roundNE q) = true :=
+  isFinite_roundNE (rnd_abs_lt_of_le_maxFin h)
+
+/-- results of magnitude at least the smallest subnormal are `.fin` -/
+theorem roundNE_fin {q : Rat} (h1 : pow2 (-1074) ≤ q.abs) (h2 : q.abs ≤ maxFin) :
+    roundNE q = .fin (rnd q) := by
+  have hr : pow2 (-1074) ≤ (rnd q).abs := by
+    rw [rnd_abs]
+    have := rnd_mono h1
+    rwa [rnd_of_rep (rep_pow2 (by decide)), rnd_of_nonneg Rat.abs_nonneg] at this
+  rcases roundNE_cases (rnd_abs_lt_of_le_maxFin h2) with ⟨h0, _⟩ | ⟨_, h⟩
+  · rw [h0, Rat.abs_zero] at hr; have := pow2_pos (-1074); grind
+  · exact h
+
+/-- item 4: for `q ≠ 0` below the overflow threshold the result is a zero or `.fin`, and
+    within half a unit in the last place -/
+theorem roundNE_finite_val {q : Rat} (h : q.abs ≤ maxFin) :
+    ((∃ s, roundNE q = .zero s) ∨ roundNE q = .fin (rnd q)) ∧
+    (toRat (roundNE q) - q).abs ≤ pow2 (ulpE q.abs) / 2 := by
+  refine ⟨?_, by rw [toRat_roundNE_of_le h]; exact rnd_err q⟩
+  rcases roundNE_cases (rnd_abs_lt_of_le_maxFin h) with ⟨_, h⟩ | ⟨_, h⟩
+  · exact Or.inl h
+  · exact Or.inr h
+
+/-- item 4, corollary: relative error `2^-53` in the normal range -/
+theorem roundNE_err_rel {q : Rat} (h1 : pow2 (-1022) ≤ q.abs) (h2 : q.abs ≤ maxFin) :
+    (toRat (roundNE q) - q).abs ≤ q.abs / pow2 53 := by
+  rw [toRat_roundNE_of_le h2]; exact rnd_err_rel h1
+
+/-- standard model for all magnitudes below overflow -/
+theorem roundNE_err_gen {q : Rat} (h2 : q.abs ≤ maxFin) :
+    (toRat (roundNE q) - q).abs ≤ q.abs / pow2 53 + pow2 (-1075) := by
+  rw [toRat_roundNE_of_le h2]; exact rnd_err_gen q
+
+/-- item 5: monotone below the overflow threshold -/
+theorem roundNE_mono {p q : Rat} (hp : p.abs ≤ maxFin) (hq : q.abs ≤ maxFin) (h : p ≤ q) :
+    toRat (roundNE p) ≤ toRat (roundNE q) := by
+  rw [toRat_roundNE_of_le hp, toRat_roundNE_of_le hq]; exact rnd_mono h
+
+/-- every result falls in exactly one of three classes -/
+theorem roundNE_class (q : Rat) :
+    (roundNE q = .inf false ∧ pow2 1024 ≤ rnd q ∧ 0 < q) ∨
+    (roundNE q = .inf true ∧ rnd q ≤ -pow2 1024 ∧ q < 0) ∨
+    (isFinite (roundNE q) = true ∧ toRat (roundNE q) = rnd q ∧ (rnd q).abs < pow2 1024) := by
+  by_cases hfin : (rnd q).abs < pow2 1024
+  · exact Or.inr (Or.inr ⟨isFinite_roundNE hfin, toRat_roundNE hfin, hfin⟩)
+  · have hP := pow2_pos 1024
+    have hq0 : q ≠ 0 := by intro h; subst h; rw [rnd_zero, Rat.abs_zero] at hfin; grind
+    have hr0 : rnd q ≠ 0 := by intro h; rw [h, Rat.abs_zero] at hfin; grind
+    have e := roundNE_eq q
+    rw [if_neg hq0, if_neg hr0, if_pos (by grind)] at e
+    by_cases hn : q < 0
+    · right; left
+      have := rnd_nonpos (Rat.le_of_lt hn)
+      rw [Rat.abs_of_nonpos this] at hfin
+      simp only [hn, decide_true] at e
+      exact ⟨e, by grind, hn⟩
+    · left
+      have := rnd_nonneg (show 0 ≤ q by grind)
+      rw [Rat.abs_of_nonneg this] at hfin
+      simp only [hn, decide_false] at e
+      exact ⟨e, by grind, by grind⟩
+
+theorem roundNE_ne_nan (q : Rat) : roundNE q ≠ .nan := by
+  rcases roundNE_class q with ⟨h, _⟩ | ⟨h, _⟩ | ⟨h, _⟩
+  · rw [h]; exact F64.noConfusion
+  · rw [h]; exact F64.noConfusion
+  · intro hn; rw [hn] at h; exact Bool.noConfusion h
+
+/-- sign preservation (any magnitude; `toRat` of an infinity is 0 by convention) -/
+theorem roundNE_nonneg {q : Rat} (h : 0 ≤ q) : 0 ≤ toRat (roundNE q) := by
+  rcases roundNE_class q with ⟨e, _⟩ | ⟨e, _⟩ | ⟨_, e, _⟩
+  · rw [e]; exact Rat.le_refl
+  · rw [e]; exact Rat.le_refl
+  · rw [e]; exact rnd_nonneg h
+
+theorem roundNE_nonpos {q : Rat} (h : q ≤ 0) : toRat (roundNE q) ≤ 0 := by
+  rcases roundNE_class q with ⟨e, _⟩ | ⟨e, _⟩ | ⟨_, e, _⟩
+  · rw [e]; exact Rat.le_refl
+  · rw [e]; exact Rat.le_refl
+  · rw [e]; exact rnd_nonpos h
+
+/-- item 5: a representable non-zero value below overflow rounds to itself -/
+theorem roundNE_of_rep {v : Rat} (hv : Rep v) (h0 : v ≠ 0) (h : v.abs < pow2 1024) :
+    roundNE v = .fin v := by
+  have e := rnd_of_rep hv
+  rcases roundNE_cases (q := v) (by rw [e]; exact h) with ⟨h1, _⟩ | ⟨_, h1⟩
+  · rw [e] at h1; exact absurd h1 h0
+  · rw [e] at h1; exact h1
+
+/-- `m · 2^K` with `|m| < 2^53`, `K ≥ -1074`, below overflow, rounds to itself -/
+theorem roundNE_mul_pow2 {m : Int} {K : Int} (hm : m.natAbs < 2 ^ 53) (hK : -1074 ≤ K)
+    (h0 : m ≠ 0) (h : ((m : Rat) * pow2 K).abs < pow2 1024) :
+    roundNE ((m : Rat) * pow2 K) = .fin ((m : Rat) * pow2 K) := by
+  refine roundNE_of_rep ⟨m, K, hm, hK, rfl⟩ ?_ h
+  intro hz
+  rcases Rat.mul_eq_zero.1 hz with h1 | h1
+  · exact h0 (by exact_mod_cast h1)
+  · exact pow2_ne_zero K h1
+
+/-- every rounded result is well-formed (non-zero and a fixed point of `roundNE`) -/
+theorem WF_roundNE (q : Rat) : WF (roundNE q) := by
+  rcases roundNE_class q with ⟨e, _⟩ | ⟨e, _⟩ | ⟨_, _, hlt⟩
+  · rw [e]; trivial
+  · rw [e]; trivial
+  · rcases roundNE_cases hlt with ⟨_, s, e⟩ | ⟨h0, e⟩
+    · rw [e]; trivial
+    · rw [e]; exact ⟨h0, roundNE_of_rep (rep_rnd q) h0 hlt⟩
+
+/-- a well-formed finite payload is representable and below overflow -/
+theorem WF.rep {v : Rat} (h : WF (.fin v)) : Rep v ∧ v.abs < pow2 1024 ∧ v ≠ 0 := by
+  obtain ⟨h0, e⟩ := h
+  rcases roundNE_class v with ⟨e', _⟩ | ⟨e', _⟩ | ⟨_, e', hlt⟩
+  · rw [e] at e'; exact F64.noConfusion e'
+  · rw [e] at e'; exact F64.noConfusion e'
+  · rw [e] at e'
+    have : rnd v = v := e'.symm
+    have hr := rep_rnd v
+    rw [this] at hr hlt
+    exact ⟨hr, hlt, h0⟩
+
+theorem WF_fin_iff {v : Rat} : WF (.fin v) ↔ Rep v ∧ v.abs < pow2 1024 ∧ v ≠ 0 :=
+  ⟨WF.rep, fun ⟨h1, h2, h3⟩ => ⟨h3, roundNE_of_rep h1 h3 h2⟩⟩
+
 end ScionTime.F64
